@@ -14,12 +14,17 @@
    text.  [wf_state]: symmetric kernel (PSD or not), |Y columns| = |Z rows|, the leaf exists, cluster ids in use
    are below n_clusters.
 
-   Not proved here (decided by L2 + L3 on every generated state instead): that the whole incremental scan with the
-   running maximum (Model.find_best true true) returns the arg-max of [gain] over [candidates] - the pieces are
-   proved (formulas C08_*_is_gain, coverage C08_candidates_covered, incremental stocks C08_incremental_stocks_correct,
-   pair choice C08_top2_pair_optimal, per-position maximum C08_scan_is_argmax_partial, arg-max of the specification
-   C08_best_spec_is_argmax), their composition through the fold over leaves/features/positions is not; and the stop
-   rule of the fit loop (C09's loop model), checked by the oracle on every recorded fit. *)
+   Section 5 closes the search: the REPAIRED search (Model.find_best true true) returns the arg-max of [gain] over
+   [candidates] on every well-formed state (C08_find_best_repaired_is_argmax), the AS-IS search does so on every
+   state where no explorable leaf can evaluate a double star and the second right tracker is never consulted with
+   three or more other clusters (C08_find_best_asis_is_argmax_on_safe_states: there as-is = repaired, which is
+   exactly where the known findings F7 / F8 cannot bite).
+   Still partial: the stop rule (C08_fit_stops_only_when_no_gain_or_limit_partial) is proved for a loop model local
+   to this development whose structural bookkeeping is abstract, under the hypothesis that the state the loop
+   stops in is well formed; preservation of [state_ok] along the loop is not proved and the loop model is tied to
+   kauri.py by the oracle on recorded fits (L3) only, not by an extracted-model correspondence.  The C09 loop
+   (Model/KauriTree.v) is not reused: its state (integer data, boolean membership matrices, an oracle for the
+   chosen split) does not line up with the real-valued state needed to talk about gains. *)
 From Coq Require Import Reals List Bool Arith ZArith.
 From GV Require Import Common.Num Common.NumR Model.KauriGain Gen.KauriFormulas Proofs.KauriGain.
 Import ListNotations.
@@ -203,23 +208,108 @@ Theorem C08_second_right_asis_refuted :
   (exists ls rs tl sl tr sr, track_second_right ls rs tl sl tr sr <> ge_opt Rops rs (Some sr)).
 Proof. exact second_right_asis_refuted. Qed.
 
-(* PARTIAL towards "the repaired scan returns the arg-max": at ONE split position (given stocks), the repaired
-   compute_all_splits (fix7 = fix8 = true) returns the running best updated with the maximum over EVERY target pair
-   it evaluates there - pos_values = double star, both stars, every switch, every ordered pair of distinct other
-   clusters + corrective term, each under its guard - and the split it returns carries the value it was compared
-   with ([covers]: the gain never decreases, dominates every value, and is the old best or one of the values).
-   Missing for the full statement: (a) the stocks at the position are cand_stocks of a threshold candidate (needs
-   sortedness of the argsort model and prefix = {X <= t}); (b) pos_values correspond one-to-one to [candidates];
-   (c) the fold of this lemma over positions, features and leaves.  (a)-(c) are covered by L2/L3: the extracted
-   repaired model is compared with best_spec and with a python brute force on every generated state. *)
-Theorem C08_scan_is_argmax_partial :
+(* at ONE split position (given stocks) the repaired compute_all_splits (fix7 = fix8 = true) returns the running best
+   updated with the maximum over EVERY target pair it evaluates there - pos_values = double star, both stars, every
+   switch, every ordered pair of distinct other clusters + corrective term, each under its guard - and the split it
+   returns carries the value it was compared with ([covers]: the gain never decreases, dominates every value, and
+   is the old best or one of the values) *)
+Theorem C08_position_is_argmax :
   forall (sl sr lf : R) (slc src : nat -> R) (cs : nat -> nat) (gamma omega : nat -> nat -> R)
          (n_leaf nc kmax k leaf_id split_size feat : nat) (thr : R) (best : split),
   covers leaf_id feat thr (pos_values sl sr lf slc src cs gamma omega n_leaf nc kmax k split_size feat) best
          (compute_all_splits Rops true true best sl sr lf slc src cs gamma omega n_leaf nc kmax k leaf_id split_size feat thr).
 Proof. exact compute_all_splits_fixed_covers. Qed.
 
-(* === 5. the specification: arg-max over all admissible candidates, telescoping ============================ *)
+(* === 5. the whole search ===================================================================================== *)
+
+(* THE REPAIRED SEARCH IS THE ARG-MAX.  For every state that is well formed ([state_ok]: symmetric kernel - PSD or
+   not -, Y and Z describe the same leaves, cluster ids in use < n_clusters <= K_max, explorable leaves exist, the
+   clusters below n_clusters are non-empty) the split r returned by the repaired search satisfies:
+     - its gain is >= 0 and >= the true gain of EVERY admissible candidate (any explorable leaf, feature of the
+       subset, data threshold leaving min_samples_leaf on both sides, star / double star / switch / reallocation
+       targets permitted by K_max and n_clusters);
+     - either it carries a candidate c* - then c* is admissible and the reported gain IS gain st c*, hence
+       gain st c <= gain st c* for every admissible c (ties: any maximiser) - or it carries none, the reported gain
+       is 0 and no admissible candidate has positive gain. *)
+Theorem C08_find_best_repaired_is_argmax : forall st : @kstate R, state_ok st ->
+  let r := find_best Rops true true st in
+  0 <= sp_gain r /\
+  (forall c, In c (candidates Rops st) -> gain Rops st c <= sp_gain r) /\
+  match sp_cand r with
+  | None => sp_gain r = 0
+  | Some c => In c (candidates Rops st) /\ sp_gain r = gain Rops st c
+  end.
+Proof. exact find_best_repaired_is_argmax. Qed.
+
+(* the same in the form "no admissible alternative beats the chosen split" *)
+Theorem C08_find_best_repaired_dominates : forall st : @kstate R, state_ok st ->
+  match sp_cand (find_best Rops true true st) with
+  | Some cstar => In cstar (candidates Rops st) /\ forall c, In c (candidates Rops st) -> gain Rops st c <= gain Rops st cstar
+  | None => forall c, In c (candidates Rops st) -> gain Rops st c <= 0
+  end.
+Proof.
+  intros st Hok. destruct (find_best_repaired_is_argmax st Hok) as (_ & H2 & H3).
+  destruct (sp_cand (find_best Rops true true st)) as [cstar|].
+  - destruct H3 as [Hin E]. split; [exact Hin|]. intros c Hc. rewrite <- E. now apply H2.
+  - intros c Hc. rewrite <- H3. now apply H2.
+Qed.
+
+(* WHERE THE KNOWN FINDINGS CANNOT BITE.  [asis_safe st]: for every explorable leaf the double-star guard of
+   compute_all_splits is false (F7 unreachable) and either the reallocation guard is false or n_clusters <= 3, so
+   that at most two other clusters are tracked and the elif of the right tracker is irrelevant (F8 unreachable).
+   On such states the search as written returns exactly what the repaired search returns, hence the arg-max. *)
+Theorem C08_find_best_asis_eq_repaired : forall st : @kstate R, state_ok st -> asis_safe st ->
+  find_best_asis Rops st = find_best Rops true true st.
+Proof. exact find_best_asis_eq_repaired. Qed.
+
+Theorem C08_find_best_asis_is_argmax_on_safe_states : forall st : @kstate R, state_ok st -> asis_safe st ->
+  let r := find_best_asis Rops st in
+  0 <= sp_gain r /\
+  (forall c, In c (candidates Rops st) -> gain Rops st c <= sp_gain r) /\
+  match sp_cand r with
+  | None => sp_gain r = 0
+  | Some c => In c (candidates Rops st) /\ sp_gain r = gain Rops st c
+  end.
+Proof. exact find_best_asis_is_argmax. Qed.
+
+(* two simple sufficient conditions: (a) at most one more cluster may be created and at most three exist;
+   (b) every explorable leaf is a whole cluster (e.g. every state of a fit in which no cluster owns two leaves) *)
+Theorem C08_asis_safe_conditions : forall st : @kstate R,
+  ((ks_kmax st <= S (ks_nc st))%nat -> (ks_nc st <= 3)%nat -> asis_safe st) /\
+  ((forall j, In j (ks_explore st) -> length (nth j (ks_leaves st) []) = csize st (nth j (ks_cl st) 0%nat)) -> asis_safe st).
+Proof. intros st. split; [apply asis_safe_simple | apply asis_safe_whole]. Qed.
+
+(* PARTIAL (see the header): why the greedy loop stops.  [fit_loop] = while gain > 0 and n_leaves < max_leaves and
+   leaves remain: search, apply; [next] = apply_split + the structural bookkeeping (abstract).  The loop ends
+   with StopNoGain only in a state where - if that state is well formed - NO admissible split has positive gain,
+   with StopMaxLeaves only when max_leaves is reached, with StopNoLeaf only when no leaf is explorable. *)
+Theorem C08_fit_stops_only_when_no_gain_or_limit_partial :
+  forall fuel max_leaves next (st st' : @kstate R) s,
+  fit_loop Rops true true fuel max_leaves next st = (st', s) ->
+  match s with
+  | StopNoGain => state_ok st' -> forall c, In c (candidates Rops st') -> gain Rops st' c <= 0
+  | StopMaxLeaves => (max_leaves <= length (ks_leaves st'))%nat
+  | StopNoLeaf => ks_explore st' = []
+  | OutOfFuel => True
+  end.
+Proof. exact (fit_loop_stops_only true true state_ok find_best_repaired_is_argmax). Qed.
+
+(* the loop as written, on states where the findings cannot bite *)
+Theorem C08_fit_asis_stops_only_when_no_gain_or_limit_partial :
+  forall fuel max_leaves next (st st' : @kstate R) s,
+  fit_loop Rops false false fuel max_leaves next st = (st', s) ->
+  match s with
+  | StopNoGain => state_ok st' /\ asis_safe st' -> forall c, In c (candidates Rops st') -> gain Rops st' c <= 0
+  | StopMaxLeaves => (max_leaves <= length (ks_leaves st'))%nat
+  | StopNoLeaf => ks_explore st' = []
+  | OutOfFuel => True
+  end.
+Proof.
+  exact (fit_loop_stops_only false false (fun st => state_ok st /\ asis_safe st)
+           (fun st H => find_best_asis_is_argmax st (proj1 H) (proj2 H))).
+Qed.
+
+(* === 6. the specification: arg-max over all admissible candidates, telescoping ============================ *)
 
 Theorem C08_best_spec_is_argmax : forall (st : @kstate R) (c : @cand R),
   In c (candidates Rops st) -> gain Rops st c <= gain Rops st (best_spec Rops st).
@@ -240,8 +330,13 @@ Example C08_nonvacuous :
   state_ok ex_state /\ wf_state ex_state ex_cand /\
   Lp ex_state ex_cand = [0%nat] /\ Rp ex_state ex_cand = [1%nat] /\ Op ex_state ex_cand = [2%nat] /\
   c_left ex_cand = ks_nc ex_state /\ c_right ex_cand = S (ks_nc ex_state) /\ (S (ks_nc ex_state) < ks_kmax ex_state)%nat /\
-  In ex_cand (candidates Rops ex_state).
-Proof. exact ex_state_ok. Qed.
+  In ex_cand (candidates Rops ex_state) /\
+  (* and a state on which the as-is search is provably the arg-max *)
+  state_ok ex_state_safe /\ asis_safe ex_state_safe.
+Proof.
+  destruct ex_state_ok as (H1 & H2 & H3 & H4 & H5 & H6 & H7 & H8 & H9). destruct ex_state_safe_ok as [S1 S2].
+  exact (conj H1 (conj H2 (conj H3 (conj H4 (conj H5 (conj H6 (conj H7 (conj H8 (conj H9 (conj S1 S2)))))))))).
+Qed.
 
 Print Assumptions C08_left_star_is_gain.
 Print Assumptions C08_right_star_is_gain.
@@ -265,7 +360,14 @@ Print Assumptions C08_leaf_square_is_stock.
 Print Assumptions C08_top2_pair_optimal.
 Print Assumptions C08_switch_loop_tracks.
 Print Assumptions C08_second_right_asis_refuted.
-Print Assumptions C08_scan_is_argmax_partial.
+Print Assumptions C08_position_is_argmax.
+Print Assumptions C08_find_best_repaired_is_argmax.
+Print Assumptions C08_find_best_repaired_dominates.
+Print Assumptions C08_find_best_asis_eq_repaired.
+Print Assumptions C08_find_best_asis_is_argmax_on_safe_states.
+Print Assumptions C08_asis_safe_conditions.
+Print Assumptions C08_fit_stops_only_when_no_gain_or_limit_partial.
+Print Assumptions C08_fit_asis_stops_only_when_no_gain_or_limit_partial.
 Print Assumptions C08_best_spec_is_argmax.
 Print Assumptions C08_best_spec_is_candidate.
 Print Assumptions C08_score_is_root_plus_gains.
